@@ -25,7 +25,7 @@ ASSUMPTIONS = [
     "growth is measured up to 8n tokens, not asymptotically; an alarm needs a ratio >= 32 on two consecutive doublings",
     "Cython and C++ code does not tick the step clock",
 ]
-REQUIRED = {"parses_completed": 1000, "ladders_completed": 10, "shape_checks": 1000, "with_templates": 100}
+REQUIRED = {"attribute_documents": 5000, "parses_completed": 1000, "ladders_completed": 10, "shape_checks": 1000, "with_templates": 100}
 LEVEL_TEXT = ("Exploration: tens of thousands (quick) to millions (thorough) of generated inputs over the full wikitext "
               "alphabet parsed by the real parse_string under an exception monitor, a result-shape monitor, a "
               "deterministic step-clock hang budget and growth ladders; thorough repeats a slice under an ASan/UBSan "
@@ -55,7 +55,28 @@ def plan(tier, seed):
         shards += [{"kind": "ladder", "shard": i, "n": n, "base": 120, "seed": seed} for i in range(n)]
         shards += [{"kind": "fuzz", "shard": 100 + i, "count": 4000, "maxtok": 200, "seed": seed, "san": True}
                    for i in range(8)]
+    shards += [{"kind": "attrs", "shard": i, "n": n, "seed": seed} for i in range(n)]
     return shards
+
+
+ATTR_TAGS = ["div", "span", "table", "tr", "td", "th", "caption", "ul", "ol", "li", "p", "ref", "references", "gallery", "font",
+             "center", "h2", "br", "hr", "pre", "blockquote", "source", "poem", "imagemap", "timeline", "math", "b", "sup"]
+
+
+def attr_documents():
+    """every structural tag x attribute name x value the name does not suggest, in HTML and in table syntax"""
+    for t in ATTR_TAGS:
+        for a in W.ATTR_NAMES:
+            for v in W.ATTR_VALUES:
+                yield "<%s %s=%s>x</%s> y" % (t, a, v if v and " " not in v else '"%s"' % v, t)
+    for a in W.ATTR_NAMES:
+        for v in W.ATTR_VALUES:
+            q = '"%s"' % v
+            yield "{| %s=%s\n|+ %s=%s | c\n|- %s=%s\n| %s=%s | x\n! %s=%s | y\n|}" % (a, q, a, q, a, q, a, q, a, q)
+            yield "<gallery %s=%s>\nFile:A.png|x\n</gallery>[[File:A.png|%s=%s|thumb|c]]" % (a, q, a, v)
+    for o1 in W.IMG_OPTS:
+        for o2 in W.IMG_OPTS:
+            yield "[[File:Pic.png|%s|%s|cap]] [[Image:a.jpg|%s]]" % (o1, o2, o1)
 
 
 _snips = []
@@ -210,6 +231,18 @@ def run_shard(desc, R):
                 R.violation("growth:super-polynomial:" + fam,
                             "steps grow by %s on consecutive doublings (sizes/steps %r)" % (ratios, series),
                             {"family": fam, "base": desc["base"], "lang": lang})
+        return
+    if desc["kind"] == "attrs":
+        for i, raw in enumerate(attr_documents()):
+            if i % desc["n"] != desc["shard"]:
+                continue
+            lang = "en"
+            R.breadcrumb(json.dumps({"raw": raw, "db": "none", "lang": lang}))
+            v, key, what, detail, tree, ticks = parse_once(raw, None, lang)
+            R.count("attribute_documents")
+            R.case(h64("attrs", raw), True)
+            if v != "ok":
+                report_violation(R, key, what, detail, raw, "none", lang)
         return
     san = bool(desc.get("san"))
     for _ in range(desc["count"]):
